@@ -31,6 +31,8 @@ class Stack:
         self.port.bind_ecu(self.ecu, via=cfg.get('via', 'listener'),
                            exc_sink=lambda fr, e: self.notify_excs.append((fr.seq, type(e).__name__)))
         self.job = self.ecu._job_thread
+        if world.tracers and self.name in world.tracers:
+            self.job.trace = world.tracers[self.name].global_trace
         self.cas = []
         for i, c in enumerate(cfg.get('cas', [])):
             nm = j.Name(value=c['name']) if 'name' in c else j.Name(value=NAME_BASE + (hash_name(self.name) << 8) + i)
@@ -100,15 +102,18 @@ def hash_name(s):
 
 
 class World:
-    def __init__(self, scn, keep_log=False):
+    def __init__(self, scn, keep_log=False, tracer_factory=None):
         self.j = seams.install()
         self.scn = scn
+        self.tracers = None
         k = scn.get('kernel', {})
         self.sim = Sim(scn['seed'], read_cost_ns=k.get('read_cost_ns', 1000), lmax_ns=k.get('lmax_ns', 50_000),
                        keep_log=keep_log)
         self.bus = SimBus(self.sim, scn.get('latency'), scn.get('faults'), seed=scn['seed'])
         self.deliveries = []
         self.stacks = {}
+        if tracer_factory is not None:
+            self.tracers = tracer_factory(self.sim)
         for s in scn.get('stacks', []):
             self.stacks[s['name']] = Stack(self, s)
 
